@@ -12,16 +12,16 @@ for mp in sorted(glob.glob("/verif/seeded/*/meta.json")):
     if "history" in m:
         rows.append("| %s | %s |" % (m["id"], m["history"].replace("|", "/")))
 s = re.sub(r"<!-- MISSED-TABLE-BEGIN -->.*?<!-- MISSED-TABLE-END -->", "<!-- MISSED-TABLE-BEGIN -->\n" + "\n".join(rows) + "\n<!-- MISSED-TABLE-END -->", s, flags=re.S)
-rounds = ["AB", "CD", "EF", "GH", "IJ", "KL", "MN"]
-names = ["first", "second", "third", "fourth", "fifth", "sixth", "seventh"]
-kept, missed = [0] * 7, [0] * 7
+rounds = ["AB", "CD", "EF", "GH", "IJ", "KL", "MN", "OP", "QR"]
+names = ["first", "second", "third", "fourth", "fifth", "sixth", "seventh", "eighth", "ninth"]
+kept, missed = [0] * 9, [0] * 9
 for mp in glob.glob("/verif/seeded/*/meta.json"):
     m = json.load(open(mp))
     k = [i for i, r in enumerate(rounds) if m["id"][3] in r][0]
     kept[k] += 1
     if m.get("history", "").startswith("MISSED"):
         missed[k] += 1
-n = max(i for i in range(7) if kept[i]) + 1
+n = max(i for i in range(9) if kept[i]) + 1
 s = re.sub(r"<!-- KEPT-BEGIN -->.*?<!-- KEPT-END -->", "<!-- KEPT-BEGIN -->%d changes are kept (%s).<!-- KEPT-END -->" % (sum(kept), " + ".join(str(x) for x in kept[:n])), s, flags=re.S)
 s = re.sub(r"<!-- MISSEDCOUNT-BEGIN -->.*?<!-- MISSEDCOUNT-END -->", "<!-- MISSEDCOUNT-BEGIN -->" + ", ".join("%d of %d in the %s round" % (missed[i], kept[i], names[i]) for i in range(n)) + "<!-- MISSEDCOUNT-END -->", s, flags=re.S)
 open(p, "w").write(s)
